@@ -651,6 +651,11 @@ func (x *Exec) emptyMap(s *Sort) Term {
 
 func (x *Exec) mapStore(m, k, v Term) Term {
 	c := x.c()
+	if m.Sort.Elem != nil && v.Sort != nil && v.Sort.Name != m.Sort.Elem.Name {
+		if r, ok := c.recPtrConv(v, m.Sort.Elem); ok {
+			v = r // a *T stored into a map whose element type is the cut view of the recursive type T
+		}
+	}
 	has := c.mapHas(m, k)
 	card := tIte(has, c.mapCard(m), app(sortInt, "+", c.mapCard(m), tInt(1)))
 	r := c.mkMap(m.Sort, app(c.setSort(m.Sort.Key), "store", c.mapDom(m), k, tTrue), app(c.arrSort(m.Sort.Key, m.Sort.Elem), "store", c.mapVals(m), k, v), card, tFalse)
